@@ -122,12 +122,19 @@ func TestC10(t *testing.T) {
 		if res.Err == nil && res.Out != nil {
 			out := res.Out
 			if cfg.allNone() || reflect.ValueOf(ev.Payload).IsZero() {
+				// "forwarded unchanged" is judged on content (the library forwards the very event; a copy with
+				// the same content would satisfy the statement as well)
 				if out != ev {
-					run.Violation("shape:not-forwarded-unchanged", "with every operation overridden to none, or a nil/zero payload, the event must be forwarded unchanged (same event)", wit(""))
+					run.Add("allnone_forwarded_as_a_copy", 1)
+				}
+				if out.Type != ev.Type || !out.CreatedAt.Equal(ev.CreatedAt) || reflect.TypeOf(out.Payload) != reflect.TypeOf(ev.Payload) || renderS(out.Payload, false) != twinR {
+					run.Violation("shape:not-forwarded-unchanged", "with every operation overridden to none, or a nil/zero payload, the event must be forwarded unchanged", wit(""))
 				}
 			} else {
 				if out == ev {
-					run.Violation("shape:same-event-forwarded", "the filter forwarded the very event it was given although it filters", wit(""))
+					// not a verdict: an implementation may forward the very event when nothing in it needed
+					// protection; whether something did is C09's leak oracle, whether the input was modified is (1)
+					run.Add("same_event_forwarded_by_a_filtering_configuration", 1)
 				}
 				// (2) same dynamic type and shape
 				if reflect.TypeOf(out.Payload) != reflect.TypeOf(ev.Payload) {
@@ -197,8 +204,13 @@ func TestC10(t *testing.T) {
 		before := fmt.Sprintf("%#v", *ip)
 		ev := &eventlogger.Event{Type: "t", CreatedAt: created, Payload: ip}
 		out, err := f.Process(context.Background(), ev)
-		if err != nil || out != ev || fmt.Sprintf("%#v", *ip) != before {
-			run.Violation("shape:not-forwarded-unchanged", fmt.Sprintf("with every operation overridden to none an event whose payload carries per-event wrapper info (event id %q, wrapper on the filter: %v) must be forwarded unchanged; forwarded the same event: %v, err=%v", ip.id, withWrapper, out == ev, err),
+		same := out != nil && out.Type == ev.Type && out.CreatedAt.Equal(ev.CreatedAt)
+		if same {
+			op, ok := out.Payload.(*infoPayload)
+			same = ok && fmt.Sprintf("%#v", *op) == before
+		}
+		if err != nil || !same || fmt.Sprintf("%#v", *ip) != before {
+			run.Violation("shape:not-forwarded-unchanged", fmt.Sprintf("with every operation overridden to none an event whose payload carries per-event wrapper info (event id %q, wrapper on the filter: %v) must be forwarded unchanged; forwarded with the same content: %v, err=%v", ip.id, withWrapper, same, err),
 				map[string]any{"payload": before})
 		}
 		run.Eval(fmt.Sprintf("allnone-eventinfo|%v|%q", withWrapper, ip.id))
